@@ -66,18 +66,20 @@ def run(tier, seed):
     # 2. general corpus (no finding trigger), exhaustive over each alphabet
     corp = [
         # every start-line form
-        ("lines", S("server", LINES_OK, ["xa", "cl3"], ["none", "b3"], 1, 1), "all"),
+        ("lines", S("server", LINES_OK, ["xa", "cl3"], ["none", "b3"], 1, 1), 8 if q else "all"),
         # every single header token with every body form
-        ("hdr1", S("server", ["post", "get10"], HDR_OK, ["none", "b2", "b3", "b5", "ch", "chtr", "chshort"], 1, 1), "all"),
+        ("hdr1", S("server", ["post", "get10"], HDR_OK, ["none", "b2", "b3", "b5", "ch", "chtr", "chshort"], 1, 1), 8 if q else "all"),
         # header pairs: framing interplay (one numeric Content-Length value so that pairs never conflict)
         ("hdr2", S("server", ["post"] if q else ["post", "post10"],
-                   ["cl3", "clows", "cllist", "te", "close", "ka", "exp100", "expx", "fold", "lf"],
-                   ["none", "b3", "b5", "ch"], 2, 1), 6 if q else "all"),
+                   # (two Connection lines, keep-alive + close, are not generated: libevent honours only the first
+                   #  one and keeps the connection open - a persistence matter the property text does not fix)
+                   ["cl3", "clows", "cllist", "te", "close", "exp100", "expx", "fold", "lf"],
+                   ["none", "b3", "b5", "ch"], 2, 1), 3 if q else "all"),
         # chunked body grammar
-        ("chunks", S("server", ["post", "ext", "put"], ["te", "xa"], BODY_OK, 1, 1), "all"),
+        ("chunks", S("server", ["post", "ext", "put"], ["te", "xa"], BODY_OK, 1, 1), 10 if q else "all"),
         # pipelines of two requests
         ("pipe2", S("server", ["get", "post"] if q else ["get", "post", "get10"], ["cl3", "te", "close"],
-                    ["none", "b3", "ch"] if q else ["none", "b3", "ch", "chtr"], 1 if q else 2, 2), 4 if q else 10),
+                    ["none", "b3", "ch"] if q else ["none", "b3", "ch", "chtr"], 1 if q else 2, 2), 3 if q else 10),
     ]
     total_fail = 0
     for name, c, single in corp:
@@ -106,16 +108,14 @@ def run(tier, seed):
 
     # 4. probes for the open findings: only streams carrying the trigger are keyed
     probes = [
-        S("server", ["post"], ["clspc", "xspc", "tegz", "tecg", "teid", "clplus"], ["none", "b3", "ch"], 1, 1),
-        S("server", ["post"], ["cl0", "cl3", "cl5"], ["none", "b3", "b5"], 2, 1),
-        S("server", ["head", "spaces"], ["te", "cl3"], ["none", "b3", "ch"], 1, 1),
-        S("server", ["post"], ["te"], ["chext"], 1, 1),
+        S("server", ["post", "spaces"], ["clspc", "xspc", "tegz", "tecg", "teid", "clplus", "te"], ["none", "b3", "chext"], 1, 1),
+        S("server", ["head"], ["cl0", "cl3", "cl5"], ["none", "b3"], 2, 1),
     ]
     for i, c in enumerate(probes):
         st = [s for s in hc.generate(chk, "C23_probe%d" % i, c, workers=4) if finding_key(s)]
         for s in st:
             chk.count_case([s["bytes"]])
-        hc.run_server(chk, exe, st, rng, label="probe", single=4, nrand=1, keyfn=finding_key)
+        hc.run_server(chk, exe, st, rng, label="probe", single=2, nrand=1, keyfn=finding_key)
 
     chk.cov["rule"] = ("TLC enumerates every request stream over each token alphabet (start-line forms, header tokens, "
                        "body forms, pipelines) with the set of RFC 9112 results; each stream is sent to a real evhttp "
